@@ -82,3 +82,66 @@ Proof.
     + rewrite Z.mul_comm. symmetry. apply Z.div_mod. lia.
     + split; [|exact B]. split; [apply Z.div_pos; lia|]. apply Z.div_lt_upper_bound; nia.
 Qed.
+
+(* ---- tabulate / of_list round trip: forcing an array does not change it ---- *)
+Lemma zrange_aux_length n lo step : length (zrange_aux n lo step) = n.
+Proof. revert lo; induction n; simpl; auto. Qed.
+
+Lemma zrange_aux_nth n lo k : (k < n)%nat -> nth k (zrange_aux n lo 1) 0 = lo + Z.of_nat k.
+Proof.
+  revert lo k; induction n as [|n IH]; intros lo [|k] Hk; simpl; try lia.
+  rewrite IH by lia. lia.
+Qed.
+
+Lemma flat_map_chunks_length {A} (g : Z -> list A) c l :
+  (forall v, length (g v) = c) -> length (flat_map g l) = (length l * c)%nat.
+Proof.
+  intros Hc. induction l as [|v l IH]; simpl; [reflexivity|]. rewrite app_length, Hc, IH. reflexivity.
+Qed.
+
+Lemma enum_box_length s : Forall (fun n => 0 <= n) s -> Z.of_nat (length (enum_box s)) = prodZ s.
+Proof.
+  induction 1 as [|n s Hn _ IH]; simpl; [reflexivity|].
+  rewrite (flat_map_chunks_length _ (length (enum_box s))) by (intros; apply map_length).
+  unfold zrange. change (1 <=? 0) with false. cbv iota. rewrite zrange_aux_length, Z.div_1_r.
+  rewrite Nat2Z.inj_mul, IH. lia.
+Qed.
+
+Lemma nth_flat_map_chunks {A} (d : A) (c : nat) (g : Z -> list A) (l : list Z) (q r : nat) :
+  (forall v, length (g v) = c) -> (r < c)%nat -> (q < length l)%nat ->
+  nth (q * c + r) (flat_map g l) d = nth r (g (nth q l 0)) d.
+Proof.
+  intros Hc Hr. revert q; induction l as [|v l IH]; intros q Hq; simpl in *; [lia|].
+  destruct q as [|q].
+  - simpl. rewrite app_nth1 by (rewrite Hc; lia). reflexivity.
+  - rewrite app_nth2 by (rewrite Hc; simpl; lia). rewrite Hc.
+    replace (S q * c + r - c)%nat with (q * c + r)%nat by (simpl; lia). apply IH. lia.
+Qed.
+
+Lemma enum_box_nth s idx : Forall (fun n => 0 <= n) s -> inbox s idx ->
+  nth (Z.to_nat (ravel s idx)) (enum_box s) [] = idx.
+Proof.
+  intros Hs. revert idx; induction Hs as [|n s Hn Hs IH]; intros [|i idx]; simpl; try tauto.
+  intros [Hi Hb].
+  pose proof (ravel_bound s idx Hb) as Hr.
+  pose proof (enum_box_length s Hs) as Hl.
+  replace (Z.to_nat (i * prodZ s + ravel s idx)) with (Z.to_nat i * length (enum_box s) + Z.to_nat (ravel s idx))%nat by nia.
+  rewrite (nth_flat_map_chunks [] (length (enum_box s))).
+  - unfold zrange. change (1 <=? 0) with false. cbv iota.
+    rewrite zrange_aux_nth by (rewrite Z.div_1_r; lia).
+    set (v := 0 + Z.of_nat (Z.to_nat i)).
+    rewrite (nth_indep _ [] (cons v [])) by (rewrite map_length; lia).
+    rewrite (map_nth (cons v)). rewrite IH by exact Hb. unfold v. f_equal. lia.
+  - intros v. apply map_length.
+  - lia.
+  - unfold zrange. change (1 <=? 0) with false. cbv iota. rewrite zrange_aux_length, Z.div_1_r. lia.
+Qed.
+
+Theorem of_list_tabulate {T} (d : T) s (f : list Z -> T) idx :
+  Forall (fun n => 0 <= n) s -> inbox s idx -> of_list d s (tabulate s f) idx = f idx.
+Proof.
+  intros Hs Hb. unfold of_list, tabulate.
+  pose proof (ravel_bound s idx Hb) as Hr. pose proof (enum_box_length s Hs) as Hl.
+  rewrite (nth_indep _ d (f [])) by (rewrite map_length; lia).
+  rewrite map_nth. rewrite enum_box_nth by assumption. reflexivity.
+Qed.
